@@ -32,6 +32,7 @@ package bcl
 //@ invariant code_pos (p *parser): len(p.prog.code) == len(p.prog.positions)
 //@ invariant above_locals (p *parser): p.hadError || g.sd >= p.scope.localCount - g.uninit
 //@ invariant pool (p *parser): forall k string :: has(p.identRefs, k) ==> 0 <= p.identRefs[k] && p.identRefs[k] < len(p.prog.constants) && p.prog.constants[p.identRefs[k]] == VStr(k)
+//@ invariant [C09,C06] storable_pool (p *parser): forall i int :: 0 <= i && i < len(p.prog.constants) ==> storable(p.prog.constants[i])
 //@ invariant tok_range (p *parser): 0 <= p.prev.typ && p.prev.typ < tMAX && 0 <= p.current.typ && p.current.typ < tMAX
 //@ invariant fin (p *parser): (g.lastfin ==> p.current.typ <= tEOF) && !g.lasterr
 //@ invariant [C17] panic_err (p *parser): p.panicMode ==> p.hadError
@@ -220,6 +221,7 @@ package bcl
 //
 //@ group C10,C16
 //@ func (*parser).makeConst
+//@   requires [C09,C06] only_storable_values_become_constants: storable(v)
 //@   ensures index: 0 <= result && result < len(p.prog.constants) && p.prog.constants[result] == v
 //@   ensures grows: len(p.prog.constants) >= old(len(p.prog.constants))
 //@   ensures prefix_kept: forall i int :: 0 <= i && i < old(len(p.prog.constants)) ==> p.prog.constants[i] == old(p.prog.constants[i])
@@ -389,7 +391,7 @@ package bcl
 //@   ghostinit sd = 0; pend = F0(); bd = 0; uninit = 0; njopen = 0; maxtarget = 0; consumed = 0; lastfin = false; lasterr = false; diags = 0; lx_fin = false; lx_err = false; ev_close_tokens = 0; ev_bytes_inputs = 0; ev_send_tokens = 0; bk = 2
 //@   ensures [C17] error_iff_diagnostic: ((result2 != nil) <==> g.diags > 0) && g.diags >= 0
 //@   ensures result0 != nil
-//@   ensures [C19,C03] complete_when_ok: result2 == nil ==> result0.linePos != nil
+//@   ensures [C19,C03,C09,C06] complete_when_ok: result2 == nil ==> dumpable(result0)
 //@   loop 1 invariant invs(p)
 //@   loop 1 invariant p.scope.depth == 0 && g.uninit == 0 && (p.hadError || (g.pend == F0() && g.sd == p.scope.localCount && g.bd == 0 && g.njopen == 0))
 //@   loop 1 invariant [C17] toplevel_recovered: !p.panicMode || p.current.typ == tFAIL
